@@ -205,6 +205,33 @@ pub fn gen_session(seed: u64, run: u64, thorough: bool) -> Session {
                 ops.push(PlannedOp::new(Op::ProbeText { uri: u.clone() }));
             }
         }
+        if lrng.chance(1, 12) {
+            // A file event for a file the editor does not have open, and in the same breath the
+            // didOpen of that very file with a text that differs from the disk (the user clicks on
+            // a file that a checkout has just rewritten), then an edit: from the didOpen on the
+            // document is the editor's, whatever the server was still doing about the event.
+            let unopened: Vec<&String> = docs.iter().filter(|d| !models.contains_key(&uri_for(&root, d)) || closed.contains(&uri_for(&root, d))).collect();
+            if !unopened.is_empty() {
+                let rel: &String = *lrng.pick(&unopened[..]);
+                let u = uri_for(&root, rel);
+                ops.push(PlannedOp::tagged(Op::Watched { changes: vec![(u.clone(), *lrng.pick(&[2u32, 1, 3]))] }, "didChangeWatchedFiles.then_open_at_once"));
+                let text = gen_text(&mut lrng, 12);
+                let mut p = PlannedOp::tagged(Op::Open { uri: u.clone(), text: text.clone() }, "didOpen.right_after_file_event");
+                p.tags.push("glued".into());
+                ops.push(p);
+                // (checked before the edit as well: after an edit "dropped, document forgotten" is
+                // a legal outcome and disk activity then excuses whatever the server holds)
+                ops.push(PlannedOp::new(Op::ProbeText { uri: u.clone() }));
+                let mut m = DocModel { text };
+                let r = m.random_range(&mut lrng);
+                let e = Edit { range: Some(r), text: gen_text(&mut lrng, 4) };
+                m.apply(&e).unwrap();
+                ops.push(PlannedOp::new(Op::Change { uri: u.clone(), edits: vec![e] }));
+                ops.push(PlannedOp::new(Op::ProbeText { uri: u.clone() }));
+                models.insert(u.clone(), m);
+                closed.remove(&u);
+            }
+        }
         let uri = rng.pick(&all_uris).clone();
         let choice = rng.below(20);
         match choice {
